@@ -267,7 +267,7 @@ M('F24R', 'src/xdoctest/static_analysis.py', """    # Only iterate through non-b
             if t[0] == tokenize.COMMENT:""", ['C04'], 'F24 repair reverted: comments after a whitespace-only line are not seen')
 M('F25R', 'src/xdoctest/static_analysis.py', """    lines = list(lines)
     iterable = (line for line in lines if line.strip())""", """    lines = list(lines)
-    iterable = (line for line in lines if line)""", ['C04'], 'F25 repair reverted: a whitespace-only continuation line breaks statement splitting')
+    iterable = (line for line in lines if line)""", ['C04', 'C01', 'C13'], 'F25 repair reverted: a whitespace-only continuation line breaks statement splitting')
 M('F17R', 'src/xdoctest/doctest_example.py', """                part_directive = None
                 try:
                     try:
